@@ -209,10 +209,18 @@ fn clvm_tree_to_lazy_node(obj: Bound<'_, PyAny>) -> PyResult<LazyNode> {
     let root_ptr = obj.as_ptr() as usize;
     let mut stack: Vec<WorkItem<'_>> = vec![WorkItem::Visit(obj)];
 
+    // identity_map is keyed by object address. Every object whose address has
+    // been recorded (or compared against the map) must stay alive until the
+    // walk is done: a `.pair` getter may build fresh child objects on every
+    // call, and once such a child is dropped CPython can hand its address to
+    // a different object, which would then be mistaken for the old one.
+    let mut keep_alive: Vec<Bound<'_, PyAny>> = Vec::new();
+
     while let Some(item) = stack.pop() {
         match item {
             WorkItem::Visit(pyobj) => {
                 let id = pyobj.as_ptr() as usize;
+                keep_alive.push(pyobj.clone());
 
                 if identity_map.contains_key(&id) {
                     continue;
@@ -236,6 +244,8 @@ fn clvm_tree_to_lazy_node(obj: Bound<'_, PyAny>) -> PyResult<LazyNode> {
                         pyobj.getattr("pair")?.extract()?;
 
                     if let Some((left, right)) = pair_val {
+                        keep_alive.push(left.clone());
+                        keep_alive.push(right.clone());
                         let left_id = left.as_ptr() as usize;
                         let right_id = right.as_ptr() as usize;
 
